@@ -141,7 +141,7 @@ def eff_size(size, nv):
     return size if size else nv
 
 
-SIZE_FORMS = ("int", "np64", "np32", "t0")      # hashable integer-like forms accepted by the unchanged library with the meaning of the int
+SIZE_FORMS = ("int", "np64", "np32", "t0", "np8", "np16", "npu8")      # hashable integer-like forms accepted by the unchanged library with the meaning of the int
 NUM_FORMS = ("int", "np64", "arr0")
 DEVICE_FORMS = ("omit", "str", "obj", "none")
 
@@ -154,6 +154,9 @@ def as_form(x, form):
         return np.arange(x, x + 1)[0]          # an element of np.arange: numpy int64 scalar
     if form == "np32":
         return np.int32(x)
+    if form in ("np8", "np16", "npu8"):        # narrow numpy integers (after fix F15 they mean the same int)
+        ty = {"np8": np.int8, "np16": np.int16, "npu8": np.uint8}[form]
+        return ty(x) if x <= np.iinfo(ty).max else np.int32(x)
     if form == "arr0":
         return np.array(x)
     if form == "t0":
